@@ -561,28 +561,45 @@ class ClassStub(Stub):
         name: str,
         function_stubs: Optional[Iterable[FunctionStub]] = None,
         attribute_stubs: Optional[Iterable[AttributeStub]] = None,
+        class_stubs: Optional[Iterable["ClassStub"]] = None,
     ) -> None:
         self.name = name
         self.function_stubs: Dict[str, FunctionStub] = {}
         self.attribute_stubs = attribute_stubs or []
         if function_stubs is not None:
             self.function_stubs = {stub.name: stub for stub in function_stubs}
+        # The classes nested in this one
+        self.class_stubs: Dict[str, ClassStub] = {}
+        if class_stubs is not None:
+            self.class_stubs = {stub.name: stub for stub in class_stubs}
 
-    def render(self) -> str:
+    def render(self, prefix: str = "") -> str:
+        body_prefix = prefix + "    "
         parts = [
-            f"class {self.name}:",
+            f"{prefix}class {self.name}:",
             *[
-                stub.render(prefix="    ")
+                stub.render(prefix=body_prefix)
                 for stub in sorted(self.attribute_stubs, key=lambda stub: stub.name)
             ],
             *[
-                stub.render(prefix="    ")
+                stub.render(prefix=body_prefix)
                 for _, stub in sorted(self.function_stubs.items())
+            ],
+            *[
+                stub.render(prefix=body_prefix)
+                for _, stub in sorted(self.class_stubs.items())
             ],
         ]
         return "\n".join(parts)
 
     def __repr__(self) -> str:
+        if self.class_stubs:
+            return "ClassStub(%s, %s, %s, %s)" % (
+                repr(self.name),
+                tuple(self.function_stubs.values()),
+                tuple(self.attribute_stubs),
+                tuple(self.class_stubs.values()),
+            )
         return "ClassStub(%s, %s, %s)" % (
             repr(self.name),
             tuple(self.function_stubs.values()),
@@ -862,10 +879,6 @@ def build_module_stubs(entries: Iterable[FunctionDefinition]) -> Dict[str, Modul
         path = entry.qualname.split(".")
         name = path.pop()
         class_path = path
-        # TODO: Handle nested classes
-        klass = None
-        if len(class_path) > 0:
-            klass = ".".join(class_path)
         if entry.module not in mod_stubs:
             mod_stubs[entry.module] = ModuleStub()
         mod_stub = mod_stubs[entry.module]
@@ -882,10 +895,14 @@ def build_module_stubs(entries: Iterable[FunctionDefinition]) -> Dict[str, Modul
         # Don't need to import anything from the same module
         imports.pop(entry.module, None)
         mod_stub.imports_stub.imports.merge(imports)
-        if klass is not None:
-            if klass not in mod_stub.class_stubs:
-                mod_stub.class_stubs[klass] = ClassStub(klass)
-            class_stub = mod_stub.class_stubs[klass]
+        if class_path:
+            # The stub of a nested class goes into the stub of its outer class
+            class_stubs = mod_stub.class_stubs
+            for class_name in class_path:
+                if class_name not in class_stubs:
+                    class_stubs[class_name] = ClassStub(class_name)
+                class_stub = class_stubs[class_name]
+                class_stubs = class_stub.class_stubs
             class_stub.function_stubs[func_stub.name] = func_stub
         else:
             mod_stub.function_stubs[func_stub.name] = func_stub
